@@ -201,6 +201,16 @@ func init() {
 				}
 				return
 			}
+			var ap struct {
+				API    bool `json:"api_storm_in_child_process"`
+				Rounds int  `json:"rounds"`
+			}
+			if json.Unmarshal(ctx.Replay, &ap) == nil && ap.API {
+				for k := 0; k < 5 && len(ctx.Res.Failures) == 0; k++ {
+					apiStorm(ctx, ap.Rounds, "no_panic_no_deadlock")
+				}
+				return
+			}
 			var sp struct {
 				Storm  bool `json:"close_storm"`
 				Cached bool `json:"cached"`
@@ -222,6 +232,13 @@ func init() {
 				fatal(err)
 			}
 			one(&c)
+			return
+		}
+		// "none of this can panic or deadlock": first of all the whole scope API at once (subscopes closed
+		// and obtained again while their handles are in use, report passes, snapshots) in a child process -
+		// a racing map or a deadlock ends the child, not the harness
+		apiStorm(ctx, ctx.N(3000, 40000), "no_panic_no_deadlock")
+		if len(ctx.Res.Failures) > 0 {
 			return
 		}
 		for _, raw := range ctx.CorpusCases() {
